@@ -390,3 +390,12 @@ Qed.
 
 Theorem veq_other_class seq c d xs ys : c <> d -> veq seq (VTask c xs) (VTask d ys) = false.
 Proof. intros H. cbn [veq]. apply str_eqb_neq in H. now rewrite H. Qed.
+
+(* the pickled state of a task never carries the context it was given (nor its result_meta), whatever it held *)
+Theorem getstate_whitelist_carries_no_context o : getstate_extras GSWhitelist o = (None, None).
+Proof. reflexivity. Qed.
+Theorem getstate_vars_refuted : exists o, fst (getstate_extras GSVars o) <> None.
+Proof.
+  exists {| o_val := VScal SNone; o_key := []; o_results_map := None; o_context := Some 1; o_result_meta := None;
+            o_result := None; o_derived := None; o_has_ctx_attrs := true |}. discriminate.
+Qed.
